@@ -1301,6 +1301,29 @@ def substitute_new_temps(fn, known_locals):
                     inside = [n for t in later for n in ast.walk(t) if isinstance(n, ast.Name) and n.id == name and isinstance(n.ctx, ast.Load)]
                     if uses_elsewhere and len(inside) == len(uses_elsewhere):
                         ok = _uses_safe(later, name, deps)
+                        if ok and not simple_arg(s.value):
+                            # a value that is built (not merely designated) has an identity: where the local is stored through or
+                            # mutated (x[i] = .., x.attr = .., x.append(..)), it must stay one object
+                            par_l = {}
+                            for t in later:
+                                for a_ in ast.walk(t):
+                                    for c_ in ast.iter_child_nodes(a_):
+                                        par_l[id(c_)] = a_
+                            for u in inside:
+                                p1 = par_l.get(id(u))
+                                if isinstance(p1, (ast.Subscript, ast.Attribute)) and p1.value is u:
+                                    if isinstance(p1.ctx, (ast.Store, ast.Del)):
+                                        ok = False
+                                    p2 = par_l.get(id(p1))
+                                    if isinstance(p1, ast.Attribute) and isinstance(p2, ast.Call) and p2.func is p1 and \
+                                            (p1.attr in CONTAINER_MUTATORS or p1.attr in ("fill", "resize", "put", "itemset")):
+                                        ok = False
+                                    # x[i][j] = ..: a store through a nested subscript
+                                    q = p1
+                                    while isinstance(par_l.get(id(q)), ast.Subscript) and par_l[id(q)].value is q:
+                                        q = par_l[id(q)]
+                                        if isinstance(q.ctx, (ast.Store, ast.Del)):
+                                            ok = False
                         if ok:
                             val = s.value
 
